@@ -281,6 +281,11 @@ def synthetic_zones(rng, tier):
     mk("syn_type0_dst_first", b"<-03>3", times=[-1000000000, -990000000, -970000000, -960000000], idx=[0, 1, 0, 1],
        types=[(-7200, 1, 4), (-10800, 0, 0)], ab=b"-03\0-02\0")
     mk("syn_late", b"STD5DST,M3.2.0,M11.1.0", times=[t0, 4102444800 * 3], idx=[1, 2])
+    # footer offsets beyond 24 h: Load() bounds the type table's offsets by +-24h but not the
+    # types the footer adds (std up to 24:59:59, default dst one hour more) - found by LoadCert.v
+    mk("syn_wide_footer", b"AAA-24:30BBB,M3.2.0,M11.1.0", times=[], idx=[], types=[(0, 0, 0)], ab=b"UTC\0")
+    mk("syn_wide_footer2", b"AAA24:59:59BBB,M3.2.0,M11.1.0", std=-89999, dst=-86399,
+       types=[(-17762, 0, 0), (-86399, 0, 4), (-86399, 1, 8)])
     return out
 
 
